@@ -438,6 +438,28 @@ def run(chk, tier):
             chk.ok('R3', 'clamp_selected_hop:post', 'returns with no selection or an index below hops_for_flow(selected_flow).len() on all %d traces' % len(outs))
     else:
         chk.fail('R3', 'clamp_selected_hop:post', '-', 'TuiApp::clamp_selected_hop not found', key='R3|clamp_selected_hop|missing')
+    # the selected hop *address* is re-validated with the hop: one of the clamps that run before every frame bounds selected_hop_address by the
+    # address count of the hop that is selected when it returns (or by 0 without a selection), on every trace. Commands reset it when they move the
+    # selection, but the data under an unchanged selection is replaced by every snapshot (clear trace data, a shorter round).
+    TA_ = 'trippy_tui::frontend::tui_app::TuiApp'
+    ea = Engine(prog, inline_depth=1, inline_filter=lambda c: prog.fns.get(c, {}).get('impl_adt') == TA_)
+    HOPSEL = r'index\(call:State::hops_for_flow\(call:TuiApp::tracer_data\(self.*\), self\.selected_flow\), field:0\(call:TableState::selected\(.*\)\)\)'
+    BOUND = r'Min\(self\.selected_hop_address, (?:0|saturating_sub\(call:Hop::addr_count\(%s\), 1\))\)|0' % HOPSEL
+    done = None
+    for nm in ('clamp_selected_hop', 'clamp_selected_flow'):
+        fa_ = prog.find(r'tui_app::TuiApp::%s$' % nm, unique=False)
+        if not fa_:
+            continue
+        sta = St()
+        oa = ea.run(fa_[0], [ea.sym_ref(sta, 'self')], sta)
+        ws = [[vshow(ev[3]) for ev in o.st.events if ev[0] == 'write' and ev[1] == TA_ and ev[2] == 'selected_hop_address'] for o in oa if o.kind == 'return']
+        if ws and all(w_ and re.fullmatch(BOUND, w_[-1]) for w_ in ws) and any('addr_count' in w_[-1] for w_ in ws):
+            done = (nm, len(ws))
+    if done:
+        chk.ok('R3', 'hop-address:revalidated', '%s bounds selected_hop_address by the address count of the selected hop on all %d traces' % done)
+    else:
+        chk.fail('R3', 'hop-address:revalidated', fn_loc(fn) if fn else '-', 'neither clamp bounds selected_hop_address by the address count of the hop selected after re-validation: when the trace data is '
+                 'replaced (clear trace data, a round with fewer responders) the selected address index names an address the hop does not have', key='R3|hop-address|revalidated')
     fcf = prog.find(r'tui_app::TuiApp::clamp_selected_flow$', unique=False)
     if fcf:
         fn = fcf[0]
